@@ -126,8 +126,8 @@ def signature(pid: str, clause: str, run: dict, line: int) -> str:
 def expand(ctx: Ctx, pid: str, fam: list[dict], rng: random.Random) -> tuple[list[dict], list[dict]]:
     """Choose base descriptors (stratified, seeded) and return (plain runs to execute first, recipe for variants)."""
     quick = ctx.quick
-    def pick(pred, k):
-        pool = [d for d in fam if pred(d)]
+    def pick(pred, k, shaped=False):
+        pool = [d for d in fam if pred(d) and (shaped or d["shape"] == "plain")]   # the other document shapes are picked explicitly
         return common.sample(rng, pool, k)
 
     if pid == "C11":
@@ -149,7 +149,11 @@ def expand(ctx: Ctx, pid: str, fam: list[dict], rng: random.Random) -> tuple[lis
                         and d["phases"] in (["fuzzing"], ["coverage", "fuzzing"]), nb // 6 + 1)
                  + pick(lambda d: d["links"] == "bad", nb // 6 + 1)
                  + pick(lambda d: all(b == "ok" for b in d["ops"]) and d["links"] != "bad", nb // 6 + 1)
-                 + pick(lambda d: any(b == "badif" for b in d["ops"]), nb // 6 + 1))
+                 + pick(lambda d: any(b == "badif" for b in d["ops"]), nb // 6 + 1)
+                 # requests equal up to the method under unique-inputs; failures that belong to a request a check derived
+                 + pick(lambda d: d["shape"] == "twin" and d["unique"] and all(b == "ok" for b in d["ops"]), nb // 9 + 1, shaped=True)
+                 + pick(lambda d: d["shape"] == "twin" and not d["unique"], 2 if quick else 6, shaped=True)
+                 + pick(lambda d: d["shape"] == "authprobe" and all(b in ("ok", "badif") for b in d["ops"]), nb // 9 + 1, shaped=True))
         recipe = {"stop": 0, "ctrlc": 0, "faults": 10 if quick else 16}
     else:  # C12
         nb = 60 if quick else 250
